@@ -61,7 +61,9 @@ def mutate(rng, s):
 
 FIXED = [":silent,", ":silent", "f($a", "f($a)", "$nope", "plus($a,$b)", "1.5", "-", "f()", "f(x)(y)", "x y", ":p1:p2(x)", "f(,)", "_", "f(g(h($a)))",
          "", " ", "(", ")", "$", ":", "$a$b", "a:b", "1.", "1.x", "-3.5x", "x'", "x/y", "f(x,)", "f(x))", "((x))", "f(x)(", "$a:infix($b)", "f:prefix($a):p",
-         "f ( $a , $b )", "　f($a)　", "f(" * 40 + "x" + ")" * 40, "f(" * 40 + "x", ",".join(["$a"] * 30), "f($a,$c)", "$a($b)", "3($a)", "f(:silent)", "f(:p($a))"]
+         "f ( $a , $b )", "　f($a)　", "f(" * 40 + "x" + ")" * 40, "f(" * 40 + "x", ",".join(["$a"] * 30), "f($a,$c)", "$a($b)", "3($a)", "f(:silent)", "f(:p($a))",
+         # names that are also names of MathML elements
+         "mi($a)($b)", "mn($a)($b)", "mtext($a,$b)($a)", "mi($a)", "mo($b)", "ms($a)($a)($b)", "mrow($a,$b)", "mfrac($a,$b)", "math($a)", "msup($b)($a)", "mtable($a)"]
 
 
 def xml_attr(s):
@@ -214,6 +216,8 @@ def applications(v):
 
 
 KF_ARITY = "known-concept-with-unexpected-number-of-arguments"
+KF_TOKEN_NAME = "concept-named-like-a-token-element"
+TOKEN_NAMES = {"mi", "mn", "mo", "mtext", "ms"}
 _ARITIES = None
 
 
@@ -249,6 +253,8 @@ def api_oracle(res, values, acc):
             nv += 1
         elif "ok" not in sp and accepted and wrong_arity_of_known_concept(v) and KF_ARITY in kf:
             res.known("%s: intent %r (%s)" % (KF_ARITY, v[:80], ", ".join("%s with %d" % x for x in wrong_arity_of_known_concept(v)[:2])))
+        elif "ok" not in sp and accepted and KF_TOKEN_NAME in kf and any(n in TOKEN_NAMES for n, _ in applications(v)) and "Pattern match/replacement failure" in sp.get("err", ""):
+            res.known("%s: intent %r" % (KF_TOKEN_NAME, v[:80]))
         elif "ok" not in sp:
             res.violation("IntentErrorRecovery=IgnoreIntent: intent %r makes speech fail: %r" % (v, sp.get("err", "")[:120]), dict(rep, mode="IgnoreIntent", observed=sp))
             nv += 1
@@ -366,6 +372,44 @@ def arg_oracle(res, aobs):
     return nv
 
 
+def context_oracle(res):
+    """whether a value is illegal depends on the element that carries it (a reference needs its argument below that element):
+    the same value on an element where it is illegal and then on one where it is fine -- across expressions of a session and
+    on two rows of one expression, in both orders -- is ignored where it is illegal and honoured where it is fine, exactly as
+    in a session that saw only that expression"""
+    good = lambda v: "<mrow intent='%s'><mi arg='a'>x</mi><mo>+</mo><mn arg='b'>1</mn></mrow>" % xml_attr(v)
+    bad = lambda v: "<mrow intent='%s'><mi arg='a'>y</mi><mo>-</mo><mn>2</mn></mrow>" % xml_attr(v)           # no argument b here
+    nv = 0
+    for v in ["foo($a,$b)", "plus($b,$a)", "f(g($b))", "$b", "binomial($a,$b):infix"]:
+        exprs = ["<math>%s</math>" % bad(v), "<math>%s</math>" % good(v),
+                 "<math><mtable><mtr><mtd>%s</mtd></mtr><mtr><mtd>%s</mtd></mtr></mtable></math>" % (bad(v), good(v)),
+                 "<math><mtable><mtr><mtd>%s</mtd></mtr><mtr><mtd>%s</mtd></mtr></mtable></math>" % (good(v), bad(v))]
+        fresh = [C.one_session([["set_preference", "IntentErrorRecovery", "IgnoreIntent"], ["set_mathml", e], ["get_spoken_text"]])["res"][-1] for e in exprs]
+        for order in ([0, 1, 0, 1], [1, 0, 1], [2, 1], [0, 3, 2]):
+            ops = [["set_preference", "IntentErrorRecovery", "IgnoreIntent"]]
+            for k in order:
+                ops += [["set_mathml", exprs[k]], ["get_spoken_text"]]
+            r = C.one_session(ops)["res"][1:]
+            for j, k in enumerate(order):
+                got = r[2 * j + 1]
+                res.add_case(("context", v, tuple(order), j), nontrivial=True)
+                if got != fresh[k]:
+                    res.violation("intent %r: after %d earlier expression(s) of the session the speech of %s is %r, in a session of its own %r"
+                                  % (v, j, exprs[k][:160], got.get("ok", got), fresh[k].get("ok", fresh[k])),
+                                  {"kind": "context", "value": v, "ops": ops[:2 * j + 3], "mathml": exprs[k], "expected": fresh[k]})
+                    nv += 1
+                    break
+            if nv >= 3:
+                return nv
+        # the bad placement is ignored, the good one honoured (in their own sessions)
+        plain = C.one_session([["set_mathml", "<math><mrow><mi>y</mi><mo>-</mo><mn>2</mn></mrow></math>"], ["get_spoken_text"]])["res"][-1]
+        if fresh[0] != plain:
+            res.violation("intent %r with a reference to a missing argument is not ignored: %r instead of %r" % (v, fresh[0].get("ok", fresh[0]), plain.get("ok")),
+                          {"kind": "intent", "value": v, "mathml": exprs[0], "mode": "IgnoreIntent"})
+            nv += 1
+    return nv
+
+
 def run(res):
     res.rule = ("intent values: 40+ fixed edge cases, seeded grammatical values (depth 0-3) over arguments a/b, 1-3 character mutations of them "
                 "(drop, duplicate, insert punctuation / Unicode / blanks, swap), arbitrary strings; lexer hook and Error-mode acceptance vs model; "
@@ -389,11 +433,12 @@ def run(res):
                                   % (v, "is accepted" if lib_accepts else "is rejected", str(sp)[:100]),
                                   {"kind": "intent", "value": v, "mathml": expr(v), "mode": "ErrorExpected" if lib_accepts else "honoured", "observed": sp})
                     n += 1
-        return n + api_oracle(res, values, acc) + arg_oracle(res, aobs) > 0
+        return n + api_oracle(res, values, acc) + arg_oracle(res, aobs) + context_oracle(res) > 0
     proved = C.check_proofs(res, "C19", ["Props/C19.vo", "Tie/C19Tie.vo"], "Props/C19.v", search=on_broken)
     if proved:
         api_oracle(res, values, acc)
         arg_oracle(res, aobs)
+        context_oracle(res)
     res.trusted += ["speech rules (match_pattern) and find_arg are oracles of the parser model; in the acceptance tie arguments a, b are present and the self-match succeeds",
                     "regex crate: leftmost-longest behaviour of the four token patterns (tied by the lexer hook)"]
     res.assumptions += ["'speech mentions the named concept' depends on the rule files: checked on three examples only"]
@@ -401,6 +446,11 @@ def run(res):
 
 def replay(path):
     rep = json.load(open(path, encoding="utf-8"))
+    if rep.get("kind") == "context":
+        C.build_harness()
+        got = C.one_session(rep["ops"])["res"][-1]
+        print("in the session:", got, "\nalone:         ", rep["expected"])
+        return 1 if got != rep["expected"] else 0
     ok, log = C.build_harness()
     if not ok:
         print("harness build failed", log)
